@@ -65,6 +65,14 @@ class RecLogger:
     debug = info = warning = exception = critical = _noop
 
 
+class EmptyBufferLogger(RecLogger):
+    """A buffering logger: a container of what it has been given, hence
+    falsy for as long as it is empty."""
+
+    def __len__(self):
+        return len(self.errors)
+
+
 def tb_sig(tb):
     out = []
     while tb is not None:
@@ -147,7 +155,11 @@ def gen_task(rng, c=None):
                 'prog': gen_prog(rng, 1, rng.choice((2, 4, 8, 12))),
                 # the documented pattern: leave the block quietly (reraise
                 # off) and call force_reraise() on the context afterwards
-                'post_force': rng.random() < 0.3}
+                'post_force': rng.random() < 0.3,
+                # the logger handed in is an (empty, hence falsy) buffer
+                'falsy_logger': rng.random() < 0.12,
+                # one context object serves two handlers in a row
+                'reuse': rng.random() < 0.12}
     if c == 'B':
         return {'c': 'B', 'exc': rng.choice(EXC_KINDS),
                 'variant': core.weighted(rng, [('capture_force', 6),
@@ -162,6 +174,9 @@ def gen_task(rng, c=None):
                                     'bound_ctx', 'bound_call',
                                     'decorated_call')),
                 'accept': rng.random() < 0.5,
+                # the object carrying a method-style filter is a copy of a
+                # prototype on which the filter had been looked up before
+                'host_copied': rng.random() < 0.2,
                 'pre': [[rng.choice(('nop', 'inner', 'yield'))]
                         for _ in range(rng.randint(0, 3))]}
     return {'c': 'D', 'exc': rng.choice(EXC_KINDS_EXCEPTION),
@@ -363,15 +378,29 @@ class Real:
         lab = '%s:orig' % self.tid
         e0 = make_exc(s['exc'], lab)
         self.objs[lab] = e0
-        lg = RecLogger()
+        lg = EmptyBufferLogger() if s.get('falsy_logger') else RecLogger()
         self.loggers.append(lg)
+        cm = None
+        if s.get('reuse'):
+            # an earlier handler used the same context object and left its
+            # block quietly
+            cm = self.ex.save_and_reraise_exception(reraise=False, logger=lg)
+            try:
+                raise InnerErr('earlier')
+            except InnerErr:
+                with cm:
+                    pass
+            cm.reraise = s['reraise']
+            self.notes['reused'] = True
         try:
             try:
                 raise_original(e0, s['exc'])
             except BaseException as caught:
                 self.notes['orig_tb'] = tb_sig(caught.__traceback__)
-                with self.ex.save_and_reraise_exception(
-                        reraise=s['reraise'], logger=lg) as ctx:
+                if cm is None:
+                    cm = self.ex.save_and_reraise_exception(
+                        reraise=s['reraise'], logger=lg)
+                with cm as ctx:
                     self.body(ctx, s['prog'], yield_fn, [], e0)
                 if s.get('post_force'):
                     self.notes['post_forced'] = True
@@ -428,9 +457,19 @@ class Real:
             def ignore(self_, ex):
                 self_.seen.append(ex)
                 calls.append(ex)
-                return accept
+                return self_.accept
         mode = s['mode']
         holder = Holder()
+        holder.accept = accept
+        if s.get('host_copied') and mode.startswith('bound'):
+            import copy as _copy
+            proto = holder
+            proto.accept = not accept      # the prototype says the opposite
+            proto.ignore                   # looked up once on the prototype
+            holder = _copy.copy(proto)
+            holder.accept = accept
+            holder.seen = []
+            self.notes['host_copied'] = True
         if mode.startswith('bound'):
             filt = holder.ignore
         elif mode == 'decorated_call':
